@@ -51,30 +51,31 @@ type w1FaultRates struct { // per mille, per message / per insert
 }
 
 type w1Config struct {
-	agents        int
-	runLen        int // simulated seconds of workload
-	window        int // historic window, same on agents and aggregators
-	shortWindow   int
-	inserters     int
-	saveImm       bool
-	receiveBudget bool
-	keys          int
-	layouts       []w1Layout // tag layouts of the shared keys; [0] is the plain one
-	layoutMulti   bool       // several layouts of one metric may travel in the same second of an agent
-	repeatEvents  bool       // a key may be hit by two events of an agent in one second, at different positions
-	skew          bool       // events of the shared keys carry timestamps up to 3 s off the agent's current second
-	faulty        bool
-	faults        w1FaultRates
-	partitions    bool
-	repCrashes    bool
-	agentCrashes  bool
-	faultsStop    int  // second of the run at which faults stop
-	spareScenario bool // the only fault is one replica being down for a while
-	spareReplica  int
-	gracefulStops bool // agents are also stopped the way the agent's main() does on SIGINT and restarted on their disk cache (not a fault)
-	rawSender     bool // two raw senders (w1_raw_test.go) take part: hand-built payloads with unusual host arguments and rows the aggregator rejects
-	handlerPause  int  // 0: handlers run through; 1: handlers of selected historic requests pause between two rows (w1_pause_test.go); 2: same, and every insert takes a few milliseconds
-	chLatency     bool // every ClickHouse insert takes 1-50 ms of fake time (not a fault)
+	agents           int
+	runLen           int // simulated seconds of workload
+	window           int // historic window, same on agents and aggregators
+	shortWindow      int
+	inserters        int
+	saveImm          bool
+	receiveBudget    bool
+	keys             int
+	layouts          []w1Layout // tag layouts of the shared keys; [0] is the plain one
+	layoutMulti      bool       // several layouts of one metric may travel in the same second of an agent
+	repeatEvents     bool       // a key may be hit by two events of an agent in one second, at different positions
+	skew             bool       // events of the shared keys carry timestamps up to 3 s off the agent's current second
+	faulty           bool
+	faults           w1FaultRates
+	partitions       bool
+	repCrashes       bool
+	agentCrashes     bool
+	faultsStop       int  // second of the run at which faults stop
+	spareScenario    bool // the only fault is one replica being down for a while
+	spareReplica     int
+	gracefulAggStops bool // aggregators are also stopped the way cmd/statshouse-agg main() does on SIGINT, with an insert in flight (not a fault)
+	gracefulStops    bool // agents are also stopped the way the agent's main() does on SIGINT and restarted on their disk cache (not a fault)
+	rawSender        bool // two raw senders (w1_raw_test.go) take part: hand-built payloads with unusual host arguments and rows the aggregator rejects
+	handlerPause     int  // 0: handlers run through; 1: handlers of selected historic requests pause between two rows (w1_pause_test.go); 2: same, and every insert takes a few milliseconds
+	chLatency        bool // every ClickHouse insert takes 1-50 ms of fake time (not a fault)
 }
 
 type w1Replica struct {
@@ -88,6 +89,13 @@ type w1Replica struct {
 	chSeq int
 
 	downSince time.Time
+
+	// graceful stop (actReplicaGraceful)
+	insertDisabled bool          // DisableNewInsert was called on this process
+	rpcClosed      bool          // its RPC server no longer takes requests (ShutdownRPCServer), under w.mu
+	armSlow        time.Duration // the next insert that would simply be stored takes this long (not a fault), under w.mu
+	slowTaken      bool          // an insert took armSlow and is in flight, under w.mu
+	restartAt      time.Time     // when the scheduler starts the next process
 }
 
 func (rep *w1Replica) khAddr() string { return fmt.Sprintf("ch-r%d-g%d:8123", rep.idx+1, rep.gen) }
@@ -146,6 +154,7 @@ type w1World struct {
 	raws     []*w1Inst
 	lastRaw  uint32
 	graceful int // graceful agent stops performed so far
+	aggStops int // graceful aggregator stops begun so far
 	zombies  []*w1Inst
 	allInsts []*w1Inst
 	clients  []*w1Client
@@ -350,6 +359,8 @@ func w1Run(t *testing.T, r *verifsim.Run) {
 	// their view of the replicas
 	cfg.gracefulStops = c.Intn(2, "graceful_agent_stops") == 1 && !cfg.spareScenario
 	r.Config["graceful_agent_stops"] = cfg.gracefulStops
+	cfg.gracefulAggStops = c.Intn(2, "graceful_aggregator_stops") == 1 && !cfg.spareScenario
+	r.Config["graceful_aggregator_stops"] = cfg.gracefulAggStops
 	r.Config["agents"], r.Config["run_len_s"], r.Config["historic_window_s"] = cfg.agents, cfg.runLen, cfg.window
 	r.Config["short_window"], r.Config["inserters"], r.Config["save_immediately"] = cfg.shortWindow, cfg.inserters, cfg.saveImm
 	r.Config["receive_budget"], r.Config["keys"], r.Config["faulty"] = cfg.receiveBudget, cfg.keys, cfg.faulty
@@ -375,7 +386,7 @@ func w1Run(t *testing.T, r *verifsim.Run) {
 	}
 	w.insts = make([]*w1Inst, cfg.agents)
 	w.instGen = make([]int, cfg.agents)
-	w.partition = make([][3]bool, cfg.agents+2) // the last two: raw senders (never partitioned)
+	w.partition = make([][3]bool, cfg.agents+3) // the last three: raw senders (never partitioned)
 	if cfg.rawSender {
 		w.startRaws()
 	}
@@ -401,6 +412,11 @@ func w1Run(t *testing.T, r *verifsim.Run) {
 		}
 		w.reapZombies(false)
 		now := time.Now()
+		for _, rep := range w.reps { // next process of a gracefully stopped aggregator
+			if !rep.up && !rep.restartAt.IsZero() && !now.Before(rep.restartAt) {
+				w.restartReplica(rep)
+			}
+		}
 		if !stopped && !now.Before(faultsStopAt) {
 			w.faultsStop()
 			stopped = true
@@ -424,8 +440,15 @@ func w1Run(t *testing.T, r *verifsim.Run) {
 			act = c.Intn(12, "act")
 		} else if cfg.gracefulStops && c.Intn(25, "graceful_act") == 1 {
 			act = 7 // also in fault-free runs and after faults_stop: a restart is not a fault
+		} else if cfg.gracefulAggStops && c.Intn(40, "graceful_agg_act") == 1 {
+			act = 6
 		}
 		switch {
+		case act == 6 && cfg.gracefulAggStops:
+			w.actReplicaGraceful()
+			if r.Failed() {
+				return
+			}
 		case act == 7 && cfg.gracefulStops:
 			w.actAgentGraceful()
 			if r.Failed() {
@@ -825,10 +848,37 @@ func (w *w1World) dropCalls(pick func(call *w1Call) bool, err error) {
 		}
 	}
 	w.mu.Unlock()
-	sort.Slice(calls, func(i, j int) bool { return calls[i].qid < calls[j].qid })
+	// by what the call is, not by query id: ids are handed out in the order in which goroutines of one
+	// instant happened to ask
+	sort.Slice(calls, func(i, j int) bool {
+		a, b := calls[i], calls[j]
+		switch {
+		case a.inst.agent != b.inst.agent:
+			return a.inst.agent < b.inst.agent
+		case a.replica != b.replica:
+			return a.replica < b.replica
+		case a.kind != b.kind:
+			return a.kind < b.kind
+		case a.T != b.T:
+			return a.T < b.T
+		case a.attempt != b.attempt:
+			return a.attempt < b.attempt
+		case a.dup != b.dup:
+			return b.dup
+		}
+		if am, bm := a.payload != nil && a.payload.hasMarker, b.payload != nil && b.payload.hasMarker; am != bm {
+			return am // one second, two payloads (a killed process's and its successor's own): their attempts are numbered apart
+		}
+		return a.qid < b.qid
+	})
 	for _, call := range calls {
 		call.conn.clientGone()
 		w.finish(call, w1Result{err: err})
+		// One connection's end per fake instant: what a failed send sets off in the agent (the second joins
+		// the historic queue, a waiting historic sender takes the oldest queued second) must have settled
+		// before the next one fails. A replica that stops gracefully can hold dozens of requests; if they
+		// all failed in one instant, which sender takes which second would be a goroutine race.
+		time.Sleep(3 * time.Microsecond)
 	}
 }
 
@@ -906,7 +956,128 @@ func (w *w1World) stopReplica(rep *w1Replica) {
 	idx := rep.idx
 	w.dropCalls(func(call *w1Call) bool { return call.replica == idx }, rpc.ErrClientConnClosedSideEffect)
 	rep.agg.cancelInsertsFunc()
-	rep.agg.DisableNewInsert()
+	if !rep.insertDisabled { // a gracefully stopping process did it itself
+		rep.insertDisabled = true
+		rep.agg.DisableNewInsert()
+	}
+}
+
+// actReplicaGraceful stops an aggregator the way main() of cmd/statshouse-agg does on SIGINT (same
+// calls, same order) and lets the scheduler start a new process (empty memory) a few seconds later:
+//  1. DisableNewInsert                 (ticker ends, inserters finish what they hold; handlers keep every
+//     new request unanswered from here on)
+//  2. WaitInsertsFinish(30 s)          (data_model.ClickHouseTimeoutShutdown; agents keep sending)
+//  3. ShutdownRPCServer                (no new requests)
+//  4. WaitRPCServer(10 s)              (responses already written reach their clients)
+//  5. exit                             (connections close: every request still held ends with an error)
+//
+// Steps 5-6 of main() (mappings cache, journals) have no counterpart here. A shutdown is interesting
+// only while an insert is in flight, so the stop is preceded by a scheduling device that is not a fault:
+// the next insert of this replica that would simply be stored takes 8-25 s, and SIGINT arrives once
+// it is in flight.
+func (w *w1World) actReplicaGraceful() {
+	if w.aggStops >= 2 {
+		return
+	}
+	for _, x := range w.reps {
+		if !x.up {
+			return
+		}
+	}
+	rep := w.reps[w.c.Intn(3, "graceful_replica")]
+	slow := time.Duration(8+w.c.Intn(18, "graceful_insert_seconds"))*time.Second + 137*time.Millisecond
+	w.aggStops++
+	w.r.Sched("graceful_stop", fmt.Sprintf("r%d", rep.idx+1))
+	w.r.Extra["graceful_aggregator_stops"]++
+	w.r.Event("sched", "graceful stop of aggregator r%d g%d: its next insert takes %v, SIGINT once it is in flight", rep.idx+1, rep.gen, slow)
+	w.mu.Lock()
+	rep.armSlow, rep.slowTaken = slow, false
+	w.mu.Unlock()
+	step := func(i int) bool { // one scheduler step of the waiting loops; false: the run failed
+		verifsim.Wait()
+		w.observe()
+		if w.r.Failed() {
+			return false
+		}
+		w.applyWorkload()
+		w.r.Sched("time", "clock")
+		time.Sleep(100*time.Millisecond + time.Millisecond + time.Duration(1+i%89)*time.Microsecond)
+		return true
+	}
+	taken := false
+	for i := 0; i < 45 && !taken; i++ {
+		if !step(i) {
+			return
+		}
+		w.mu.Lock()
+		taken = rep.slowTaken
+		w.mu.Unlock()
+	}
+	if !taken {
+		w.mu.Lock()
+		rep.armSlow = 0
+		w.mu.Unlock()
+		w.aggStops--
+		w.r.Event("sched", "graceful stop of aggregator r%d called off: no insert came", rep.idx+1)
+		return
+	}
+	agg := rep.agg
+	rep.insertDisabled = true
+	agg.DisableNewInsert()
+	done := make(chan struct{})
+	go func() {
+		defer w.guard("aggregator WaitInsertsFinish")
+		agg.WaitInsertsFinish(data_model.ClickHouseTimeoutShutdown)
+		close(done)
+	}()
+wait:
+	for i := 0; ; i++ {
+		select {
+		case <-done:
+			break wait
+		default:
+		}
+		if i > 400 {
+			panic("w1 harness: WaitInsertsFinish did not return within its own timeout")
+		}
+		if !step(i) {
+			return
+		}
+	}
+	w.mu.Lock()
+	rep.rpcClosed = true
+	w.signalNetLocked()
+	w.mu.Unlock()
+	for i := 0; i < 100 && w.responsesInFlight(rep.idx); i++ {
+		if !step(i) {
+			return
+		}
+	}
+	verifsim.Wait()
+	w.observe()
+	if w.r.Failed() {
+		return
+	}
+	w.r.Event("sched", "graceful stop of aggregator r%d g%d done, process exits", rep.idx+1, rep.gen)
+	w.stopReplica(rep)
+	rep.restartAt = time.Now().Add(time.Duration(1+w.c.Intn(5, "graceful_restart_after_s")) * time.Second)
+}
+
+// responsesInFlight: a response this replica wrote has not reached its client yet.
+func (w *w1World) responsesInFlight(replica int) bool {
+	w.mu.Lock()
+	defer w.mu.Unlock()
+	for _, inst := range append(append([]*w1Inst(nil), w.insts...), w.raws...) {
+		if inst == nil {
+			continue
+		}
+		for call := range inst.calls {
+			if call.replica == replica && call.respPending && !call.done {
+				return true
+			}
+		}
+	}
+	return false
 }
 
 func (w *w1World) restartReplica(rep *w1Replica) {
@@ -920,6 +1091,7 @@ func (w *w1World) restartReplica(rep *w1Replica) {
 	w.mu.Lock()
 	rep.agg = agg
 	rep.up = true
+	rep.insertDisabled, rep.rpcClosed, rep.armSlow, rep.slowTaken, rep.restartAt = false, false, 0, false, time.Time{}
 	w.signalNetLocked()
 	w.mu.Unlock()
 	w.r.Event("sched", "restart aggregator r%d as g%d (empty memory)", rep.idx+1, rep.gen)
